@@ -411,6 +411,40 @@ func (fx *FnExec) knownExternal(st *State, full string, fn *ssa.Function, args [
 			return []*Term{Ite(Eq(IfcTag(args[0]), IntLit(0)), NilIfc, e)}, true
 		}
 		return []*Term{e}, true
+	case "strings.IndexByte", "strings.ContainsRune", "strings.IndexRune":
+		// on a constant string the answer is a mechanically computed byte-set membership
+		if cs, ok := constStringOf(args[0]); ok {
+			c := args[1]
+			var present [256]bool
+			for i := 0; i < len(cs); i++ {
+				present[cs[i]] = true
+			}
+			var rs []*Term
+			for b := 0; b < 256; {
+				if !present[b] {
+					b++
+					continue
+				}
+				e := b
+				for e+1 < 256 && present[e+1] {
+					e++
+				}
+				if e == b {
+					rs = append(rs, Eq(c, IntLit(int64(b))))
+				} else {
+					rs = append(rs, And(Le(IntLit(int64(b)), c), Le(c, IntLit(int64(e)))))
+				}
+				b = e + 1
+			}
+			member := Or(rs...)
+			if full == "strings.ContainsRune" {
+				return []*Term{member}, true
+			}
+			r := fx.c.Fresh("idx", SInt)
+			fx.c.Assume(Implies(st.guard, And(Eq(Eq(r, IntLit(-1)), Not(member)), Ge(r, IntLit(-1)), Lt(r, IntLit(int64(len(cs)))),
+				Implies(Ge(r, IntLit(0)), Eq(StrAt(args[0], r), c)))))
+			return []*Term{r}, true
+		}
 	case "fmt.Sprintf", "fmt.Sprint", "fmt.Sprintln":
 		v := fx.c.Fresh("sprintf", SStr)
 		fx.assumeType(st, v, tStr)
